@@ -800,6 +800,8 @@ def enumerate_segment(ctx, seg, work, tag, depth_cb=None, limit_events=None, mod
              "step": e["step"], "tree_restart": read_restart(root), "model_line": None}
         if not c["crashed"]:
             ctx.disagree({"segment": seg.label, "k": k, "mode": mode}, f"crash child rc={rc} {str(res)[:300]}", "rc=77")
+        elif mode == "half" and len(res["events"]) > k and (res["events"][k]["op"], res["events"][k]["path"]) == (e["op"], e["path"]):
+            pass      # died at the close of the file opened by effect k (other effects may lie in between)
         elif res["events"][-1]["op"] != e["op"] or (res["events"][-1]["path"] != e["path"] and not (
                 e["op"] == "remove" and os.path.dirname(res["events"][-1]["path"]) == os.path.dirname(e["path"]))):
             ctx.disagree({"segment": seg.label, "k": k, "mode": mode, "what": "history not reproducible"},
